@@ -53,6 +53,7 @@ struct PktDesc
     bool typedCtor = false;
     int retype = 0;  // 1..3: the packet is first given a payload of another type and re-typed through getPayload() afterwards
     bool viaCopy = false;  // the packet handed to the encoder is a copy of the one that was built
+    bool keepHeader = false;  // kept objects only: the object keeps its header fields, nothing but the payload data is edited (in place)
 };
 
 struct Batch
@@ -730,13 +731,33 @@ void checkRoundTrip(Reporter& rep, Ctx& c, const Batch& b, const std::vector<std
         c.count("roundtrip_with_decoder_history");
     }
     std::vector<std::shared_ptr<Packet>> got;
-    for (auto& f : frames)
+    // one round trip in four: a copy of the decoder is taken between two frames (a snapshot that stays in use) and is given
+    // every following frame BEFORE the original; both have seen exactly the encoder's frames and owe the same packets
+    std::unique_ptr<Decoder> twin;
+    const size_t twinAt = (frames.size() >= 2 && r.chance(1, 4)) ? 1 + r.below(frames.size() - 1) : 0;
+    size_t twinCount = 0, origCountSinceTwin = 0;
+    for (size_t fi = 0; fi < frames.size(); ++fi)
     {
+        const auto& f = frames[fi];
+        if (twinAt && fi == twinAt)
+        {
+            twin = std::make_unique<Decoder>(dec);
+            c.count("roundtrip_decoder_copied_between_two_frames");
+        }
+        if (twin)
+            twinCount += twin->decode(f.data(), f.size()).size();
         auto v = dec.decode(f.data(), f.size());
+        if (twin)
+            origCountSinceTwin += v.size();
         for (auto& p : v)
             got.push_back(p);
     }
     char buf[400];
+    if (twin && twinCount != origCountSinceTwin)
+    {
+        snprintf(buf, sizeof buf, "a copy of the decoder taken before frame %zu of %zu returns %zu packets for the remaining frames, the original %zu", twinAt, frames.size(), twinCount, origCountSinceTwin);
+        rep.v("C01", "C01:packet-count", buf);
+    }
     if (got.size() != b.pkts.size())
     {
         snprintf(buf, sizeof buf, "%zu packets encoded into %zu frames, %zu packets decoded", b.pkts.size(), frames.size(), got.size());
@@ -1167,7 +1188,7 @@ Plan plan(const Ctx& c)
         p.empty = 4;
         p.randomBatches = th ? 2000000 : 40000;
         p.histDet = kHistDetPairs + 3;  // all ordered pairs of canonical shapes + the three histories with aborted calls
-        p.histRandom = th ? 20000 : 400;
+        p.histRandom = th ? 200000 : 4000;
     }
     else
     {
@@ -1408,6 +1429,115 @@ std::vector<Op> randomHistory(Ctx& c, Rng& r)
     return h;
 }
 
+// Caller-owned packet objects that live across encode() calls (a reused send buffer): the batch is brought about by editing
+// the existing objects IN PLACE - header fields through the Packet setters, Ethernet payloads through a Payload& obtained
+// when the object got its payload (the idiom of the repository's example), anything else through setPayload - and new
+// objects are appended without moving the old ones. The objects keep their addresses from call to call.
+struct KeptObjects
+{
+    std::vector<Packet> objs;
+    std::vector<Payload*> refs;   // reference into each object's payload, taken when the payload was stored
+    std::vector<PktDesc> descs;   // what each object currently holds
+    KeptObjects()
+    {
+        objs.reserve(64);
+    }
+};
+
+// before the call is described: make a good share of the packets Ethernet packets whose data can be (and then is) set in place
+void adaptBatchToKept(Batch& b, const KeptObjects& k, Rng& r)
+{
+    for (size_t i = 0; i < b.pkts.size(); ++i)
+    {
+        PktDesc& d = b.pkts[i];
+        const bool oldEth = i < k.descs.size() && k.descs[i].kind == K_ETH && k.descs[i].payload.size() >= 6;
+        if (d.payload.size() < 6 || d.msgType != wire::MT_DATA)
+            continue;
+        if (d.kind != K_ETH && !(oldEth ? r.chance(2, 3) : r.chance(1, 3)))
+            continue;
+        d.kind = K_ETH;
+        d.ptype = wire::PT_ETHERNET;
+        d.typedCtor = false;
+        d.retype = 0;
+        d.viaCopy = false;
+        wire::set16(d.payload.data(), static_cast<uint16_t>(wire::get16(d.payload.data()) & 0x0080));
+        d.payload[2] = oldEth ? k.descs[i].payload[2] : 0;
+        d.payload[3] = oldEth ? k.descs[i].payload[3] : 0;
+        wire::set16(d.payload.data() + 4, static_cast<uint16_t>(d.payload.size() - 6));
+        if (oldEth && k.descs[i].msgType == wire::MT_DATA && k.descs[i].version == d.version && r.chance(1, 2))
+        {
+            // "same packet, new data": no Packet setter is called between the two encodes, only the payload is edited in place
+            const PktDesc& o = k.descs[i];
+            d.keepHeader = true;
+            d.ts = o.ts;
+            d.ifid = o.ifid;
+            d.vendor = o.vendor;
+            d.flags = o.flags;
+            d.pktSeq = o.pktSeq;
+            d.pktDev = o.pktDev;
+            d.pktStream = o.pktStream;
+            wire::set16(d.payload.data(), wire::get16(o.payload.data()));
+        }
+    }
+}
+
+std::vector<std::vector<uint8_t>> runEncodeKept(Ctx& c, Encoder& enc, Batch& b, KeptObjects& k)
+{
+    DataContext ctx;
+    ctx.minBytesPerMessage = b.cfg.min;
+    ctx.maxBytesPerMessage = b.cfg.max;
+    const size_t n = b.pkts.size();
+    for (size_t i = 0; i < n; ++i)
+    {
+        PktDesc& d = b.pkts[i];
+        if (i >= k.objs.size())
+        {
+            k.objs.push_back(makePacket(d));
+            k.refs.push_back(&k.objs.back().getPayload());
+            k.descs.push_back(d);
+            continue;
+        }
+        Packet& p = k.objs[i];
+        const PktDesc& old = k.descs[i];
+        const size_t len = d.payload.size();
+        const bool ethInPlace = d.kind == K_ETH && old.kind == K_ETH && old.msgType == d.msgType && len >= 6 && old.payload.size() >= 6 && wire::get16(d.payload.data() + 4) == len - 6;
+        if (ethInPlace)
+        {
+            // through the reference obtained earlier; the reserved bytes of the stored payload stay as they are
+            d.payload[2] = old.payload[2];
+            d.payload[3] = old.payload[3];
+            auto& ep = static_cast<ASAM::CMP::EthernetPayload&>(*k.refs[i]);
+            ep.setData(d.payload.data() + 6, static_cast<uint16_t>(len - 6));
+            c.count("kept_packets_edited_in_place_through_an_earlier_payload_reference");
+            if (d.keepHeader)
+            {
+                k.descs[i] = d;
+                c.count("kept_packets_with_nothing_but_the_data_changed");
+                continue;
+            }
+            ep.setFlags(wire::get16(d.payload.data()));
+        }
+        else
+        {
+            p.setPayload(Payload(PayloadType(static_cast<ASAM::CMP::CmpHeader::MessageType>(d.msgType), d.ptype), d.payload.data(), len));
+            k.refs[i] = &p.getPayload();
+        }
+        p.setTimestamp(d.ts);
+        p.setInterfaceId(d.ifid);
+        p.setVendorId(d.vendor);
+        p.setCommonFlags(d.flags);
+        p.setVersion(d.version);
+        p.setSequenceCounter(d.pktSeq);
+        p.setDeviceId(d.pktDev);
+        p.setStreamId(d.pktStream);
+        k.descs[i] = d;
+        c.count("kept_packets_re_encoded_after_edits");
+    }
+    if (n == 1 && b.overload == 3)
+        return enc.encode(k.objs[0], ctx);
+    return enc.encode(k.objs.begin(), k.objs.begin() + static_cast<long>(n), ctx);
+}
+
 // a caller's forward iterator that fails in the middle of a batch (legal C++: the exception propagates out of encode())
 struct ThrowingIt
 {
@@ -1476,6 +1606,12 @@ void runHistory(Ctx& c, const std::vector<Op>& h, Rng& r)
 {
     std::unique_ptr<Encoder> current = std::make_unique<Encoder>();
     std::vector<std::unique_ptr<Encoder>> parked;  // originals that stay alive after the history moved on to a copy of them
+    // one history in four: the caller's packet objects live across the calls and are edited in place (see KeptObjects)
+    const bool keptMode = r.chance(1, 4);
+    KeptObjects kept;
+    uint8_t keptVersion = 0;
+    if (keptMode)
+        c.count("histories_with_kept_packet_objects");
 #define enc (*current)
     uint16_t dev = 0;
     uint8_t stream = 0;
@@ -1565,13 +1701,25 @@ void runHistory(Ctx& c, const std::vector<Op>& h, Rng& r)
             }
             continue;
         }
-        const Batch& b = o.batch;
-        std::string input = log + "encode(" + describe(b, dev, stream) + ")";
+        Batch b = o.batch;
+        if (keptMode && b.overload != 3)
+            b.overload = 0;
+        if (keptMode && !b.pkts.empty())
+        {
+            // (all packets of a batch carry one version; a caller that keeps its objects keeps their version too)
+            if (!keptVersion)
+                keptVersion = b.pkts[0].version;
+            for (auto& d : b.pkts)
+                d.version = keptVersion;
+        }
+        if (keptMode && b.pkts.size() <= 64)
+            adaptBatchToKept(b, kept, r);
+        std::string input = log + (keptMode ? "[caller keeps its packet objects across calls and edits them in place] " : "") + "encode(" + describe(b, dev, stream) + ")";
         if (log.size() < 3000)
             log += "encode(" + std::to_string(b.pkts.size()) + " pkts,max=" + std::to_string(b.cfg.max) + ",min=" + std::to_string(b.cfg.min) + "); ";
         c.note(input);
         Reporter rep{c, input};
-        auto frames = runEncode(enc, b);
+        auto frames = (keptMode && b.pkts.size() <= 64 && (b.overload == 0 || b.overload == 3)) ? runEncodeKept(c, enc, b, kept) : runEncode(enc, b);
         EncodeResult res = analyse(c, rep, b, std::move(frames), dev, stream, r, framesTotal < 2000);
         // C09 shadow state
         if (resync && !res.frames.empty() && res.frames[0].size() >= 8)
